@@ -76,6 +76,7 @@ func putDigester(e Digester) {
 	if _, ok := e.(*basicDigester); !ok {
 		return
 	}
+	verifEvent("digester.put", e)
 	e.Reset()
 	basicDigesterPool.Put(e)
 }
@@ -103,6 +104,7 @@ func (bdb *basicDigesterBuilder) Digest(hip HashInputProvider, value Value) (Dig
 	}
 
 	digester := getBasicDigester()
+	verifEvent("digester.get", digester)
 
 	msg, err := hip(value, digester.scratch[:])
 	if err != nil {
@@ -141,6 +143,7 @@ func (bd *basicDigester) DigestPrefix(level uint) ([]Digest, error) {
 }
 
 func (bd *basicDigester) Digest(level uint) (Digest, error) {
+	verifEvent("digester.use", bd)
 	if level >= bd.Levels() {
 		// level must be [0, bd.Levels()) (not inclusive) for digest
 		return 0, NewHashLevelErrorf("cannot get digest at level %d: level must be [0, %d)", level, bd.Levels())
